@@ -35,6 +35,7 @@ fn warm_up(rng: &mut Rng, n: usize, max_iter: u64) -> RoundSpec {
         sticky: 0,
         stalls: Vec::new(),
         panics: Vec::new(),
+        aftermath: false,
     }
 }
 
@@ -85,6 +86,7 @@ fn ordinary(rng: &mut Rng, mode: &str, faulty: bool, small: bool) -> ParScenario
             sticky: *rng.pick(&[0_u8, 0, 50, 90]),
             stalls: Vec::new(),
             panics: Vec::new(),
+            aftermath: false,
         };
         if inject {
             plan_faults(rng, n, &mut spec);
@@ -97,7 +99,14 @@ fn ordinary(rng: &mut Rng, mode: &str, faulty: bool, small: bool) -> ParScenario
                 }
             }
         }
+        let fired_possible = inject && !spec.panics.is_empty();
         rounds.push(spec);
+        if fired_possible && n >= 2 && rng.chance(1, 2) {
+            // The caller catches the unwind and runs once more on the same pool.
+            let mut again = warm_up(rng, n, 1);
+            again.aftermath = true;
+            rounds.push(again);
+        }
     }
     ParScenario { mode: mode.to_owned(), n, hw, regions, rounds, sub_seed: rng.next_u64() }
 }
@@ -216,6 +225,7 @@ fn known_use_after_unwind(rng: &mut Rng, mode: &str) -> ParScenario {
         sticky: *rng.pick(&[0_u8, 50]),
         stalls: Vec::new(),
         panics: Vec::new(),
+        aftermath: false,
     };
     let (seq, barrier_at) = spec.seam_seq();
     let range: Vec<usize> = if after_barrier { (barrier_at..seq.len()).collect() } else { (0..barrier_at).collect() };
@@ -242,6 +252,7 @@ fn known_prep_panic_hang(rng: &mut Rng, mode: &str) -> ParScenario {
         sticky: 0,
         stalls: Vec::new(),
         panics: Vec::new(),
+        aftermath: false,
     };
     let (seq, barrier_at) = spec.seam_seq();
     spec.panics.push(at_of(&seq, rng.range_usize(1, n - 1), rng.below_usize(barrier_at)));
